@@ -81,6 +81,9 @@ def run_case(case: dict[str, Any], col: Collector | None = None) -> list[tuple[s
     try:
         flat = [e for o in case["ops"] for e in (vecu.expand(tuple(o)) if o and o[0] != "bytes" else [o])]
         for step, o in enumerate(flat):
+            if o[0] == "idle":
+                d.idle(o[1])
+                continue
             session = d.server.state.session
             b = o[1] if o[0] == "bytes" else vecu.resolve(tuple(o), d.model, session, d.prev, d.last_seed)
             if not b:
